@@ -110,6 +110,23 @@ theorem wf_count_pos (s : SR) (h : SR.wf s = true) : s.count ≠ some 0 := by
   simp only [Bool.and_eq_true] at h
   simpa [SR.count] using h.1.1.2
 
+/-- `Match` with submission requirements: every requirement succeeded on the candidates (so `match_sound_rules`
+    applies to each), and the selected credentials are the de-duplicated concatenation of their selections -/
+theorem match_sound_requirements (re : Regex) (pd : PD) (wallet : List Cred) (ms : List Mapping) (vcs : List Cred)
+    (hsr : pd.srs ≠ []) (h : pdMatch Facts.C12.cfg re pd wallet = .ok (ms, vcs)) :
+    ∃ cands ls, matchConstraints Facts.C12.cfg re pd wallet pd.descs = .ok cands ∧
+      SelectedBy Facts.C12.cfg cands pd.srs ls ∧ vcs = dedup [] ls.flatten :=
+  pdMatch_sr_ok Facts.C12.cfg re pd wallet ms vcs hsr h
+
+/-- `Match` with submission requirements fails only because the constraint evaluation failed, an input descriptor
+    names a group without requirement, or a requirement failed (`match_complete_or_error_rules` says what that means) -/
+theorem match_error_requirements (re : Regex) (pd : PD) (wallet : List Cred) (e : String)
+    (hsr : pd.srs ≠ []) (h : pdMatch Facts.C12.cfg re pd wallet = .err e) :
+    matchConstraints Facts.C12.cfg re pd wallet pd.descs = .err e ∨
+    ∃ cands, matchConstraints Facts.C12.cfg re pd wallet pd.descs = .ok cands ∧
+      (e = "group" ∨ ∃ s ∈ pd.srs, SR.matchSR Facts.C12.cfg cands s = .err e) :=
+  pdMatch_sr_err Facts.C12.cfg re pd wallet e hsr h
+
 /-! ### `match_complete_or_error`: an error instead of a partial selection, and only when no complete one exists -/
 
 /-- Without submission requirements (a successful match is never partial: `match_sound`): when `Match` fails, either
